@@ -7,22 +7,25 @@ use crate::common::*;
 use std::io::{BufRead, Write};
 use tsrun::{Interpreter, JsValue, ModulePath, OrderResponse, RuntimeValue, StepResult};
 
-struct Prog { src: String, path: Option<String>, modules: Vec<(String, String)> }
+struct Prog { src: String, path: Option<String>, modules: Vec<(String, String)>, eval_entry: bool }
 fn prog(v: &serde_json::Value) -> Prog {
-    Prog { src: v.get("src").and_then(|x| x.as_str()).unwrap_or("").to_string(), path: v.get("path").and_then(|x| x.as_str()).map(|s| s.to_string()),
+    Prog { eval_entry: v.get("entry").and_then(|x| x.as_str()) == Some("eval"), src: v.get("src").and_then(|x| x.as_str()).unwrap_or("").to_string(), path: v.get("path").and_then(|x| x.as_str()).map(|s| s.to_string()),
         modules: v.get("modules").and_then(|x| x.as_array()).map(|a| a.iter().filter_map(|m| { let m = m.as_array()?; Some((m.first()?.as_str()?.to_string(), m.get(1)?.as_str()?.to_string())) }).collect()).unwrap_or_default() }
 }
 
 /// Run `p` for at most `limit` host steps (None = to its end). Returns (observation, steps used, ended).
 fn run_limited(i: &mut Interpreter, log: &Log, p: &Prog, limit: Option<u64>) -> (String, u64, bool) {
     log.borrow_mut().clear();
-    let mut r = i.prepare(&p.src, p.path.as_ref().map(|s| ModulePath::new(s.as_str())));
+    // entry point: prepare() + step(), or eval() (which runs to the first suspension by itself) continued with step()
+    let mp = p.path.as_ref().map(|s| ModulePath::new(s.as_str()));
+    let mut r = if p.eval_entry { i.eval(&p.src, mp) } else { i.prepare(&p.src, mp) };
     let mut n = 0u64;
     loop {
         if let Some(l) = limit { if n >= l { return (format!("abandoned@{}", n), n, false); } }
         match r {
             Ok(StepResult::Continue) => { n += 1; if n > 300_000 { return ("budget".into(), n, true); } r = i.step(); }
-            Ok(StepResult::Complete(v)) => { return (format!("ok|{}|{:?}", show(v.value()), log.borrow()), n, true); }
+            Ok(StepResult::Complete(v)) => { let mut names = tsrun::api::get_export_names(i); names.sort();
+                return (format!("ok|{}|{:?}|exports{:?}", show(v.value()), log.borrow(), names), n, true); }
             Ok(StepResult::NeedImports(reqs)) => { n += 1; let mut did = false;
                 for q in &reqs { if let Some((_, src)) = p.modules.iter().find(|(pa, _)| pa == q.resolved_path.as_str()) { if let Err(e) = i.provide_module(q.resolved_path.clone(), src) { return (format!("err|{}|{:?}", errclass(&e), log.borrow()), n, true); } did = true; } }
                 if !did { return (format!("need|{:?}", reqs.iter().map(|q| q.resolved_path.as_str().to_string()).collect::<Vec<_>>()), n, true); }
@@ -38,6 +41,8 @@ fn run_limited(i: &mut Interpreter, log: &Log, p: &Prog, limit: Option<u64>) -> 
 pub fn case(v: &serde_json::Value) -> serde_json::Value {
     let prefix: Vec<(Prog, Option<u64>)> = v.get("prefix").and_then(|x| x.as_array()).map(|a| a.iter().map(|p| (prog(p), p.get("stop").and_then(|s| s.as_u64()))).collect()).unwrap_or_default();
     let a = prog(&v["a"]);
+    // observers that are only meaningful when A did not run to its end (a completed main module is, by design, loaded)
+    let skip_done: Vec<bool> = v.get("observers").and_then(|x| x.as_array()).map(|arr| arr.iter().map(|o| o.get("skip_if_a_completed").and_then(|b| b.as_bool()).unwrap_or(false)).collect()).unwrap_or_default();
     let observers: Vec<(String, Prog)> = v.get("observers").and_then(|x| x.as_array()).map(|arr| arr.iter().map(|o| (o.get("name").and_then(|n| n.as_str()).unwrap_or("?").to_string(), prog(o))).collect()).unwrap_or_default();
     let stride = v.get("stride").and_then(|x| x.as_u64()).unwrap_or(1).max(1);
     // fresh-interpreter expectations
@@ -50,6 +55,7 @@ pub fn case(v: &serde_json::Value) -> serde_json::Value {
     let mut runs = 0u64; let mut bad: Vec<serde_json::Value> = vec![]; let mut nbad = 0u64; let mut distinct_a = std::collections::HashSet::new();
     for k in &points {
         for (oi, (oname, o)) in observers.iter().enumerate() {
+            if skip_done.get(oi).copied().unwrap_or(false) && (k.is_none() || *k >= Some(a_steps)) && a_end.starts_with("ok") { continue; }
             let r = std::panic::catch_unwind(|| {
                 let (mut i, log) = new_interp();
                 for (p, stop) in &prefix { run_limited(&mut i, &log, p, *stop); }
